@@ -20,6 +20,9 @@ class NonDeterministic(BaseException):
     """the harness did not rebuild the same decision sequence when re-executed: results would be meaningless"""
 
 
+DEADLINE = [None]  # wall-clock deadline of the current job (set by the job runner): a run that cannot finish is inconclusive, never a hang
+
+
 class Inconclusive(Exception):
     """solver answered unknown / resource limit: never a verdict"""
 
@@ -99,6 +102,8 @@ class Explorer:
     def check(self, *extra):
         self._sync_axioms()
         t = time.time()
+        if DEADLINE[0] is not None and t > DEADLINE[0]:
+            raise Inconclusive("job time budget exceeded (VERIF_JOB_BUDGET_S): exploration stopped, nothing is concluded")
         if self.logic is not None:
             # non-incremental solver for a specific logic (e.g. QF_FP: fpa2bv + bit-blasting + SAT), rebuilt per query
             s = z3.SolverFor(self.logic)
@@ -211,6 +216,8 @@ class Explorer:
         n = 0
         while self.pending:
             self.prefix, self.prefix_labels = self.pending.pop()
+            if DEADLINE[0] is not None and time.time() > DEADLINE[0]:
+                raise Inconclusive("job time budget exceeded (VERIF_JOB_BUDGET_S): exploration stopped, nothing is concluded")
             self._new_path()
             try:
                 fn()
